@@ -14,8 +14,6 @@ impl From<IoError> for Error {
 #[verifier::external_body]
 pub struct PathAwareValue { _p: u8 }
 #[verifier::external_body]
-pub struct DataFile { _p: u8 }
-#[verifier::external_body]
 pub struct RulesFile<'r> { _p: &'r u8 }
 #[verifier::external_body]
 pub struct SummaryType { _p: u8 }
@@ -31,6 +29,5 @@ impl Writer {
     pub fn write_err(&mut self, s: String) -> (r: std::result::Result<(), IoError>) { unimplemented!() }
 }
 
-// what the parser / the evaluation of one rules file against all data files return: uninterpreted
+// what the parser returns: uninterpreted (the evaluation semantics is in spec_validate.rs)
 pub uninterp spec fn parse_sem(content: Seq<char>, name: Seq<char>) -> Option<Option<RulesFile<'static>>>;
-pub uninterp spec fn eval_sem(content: Seq<char>, name: Seq<char>) -> Status;
